@@ -1080,6 +1080,12 @@ class DateTime(_BaseDateTime, dtypes.Timestamp):
             return "datetime64[ns]"
         return str(self.type)
 
+    def __hash__(self) -> int:
+        # not every tzinfo object is hashable (e.g. dateutil time zones)
+        return hash(
+            (type(self), self.unit, str(self.tz), self.time_zone_agnostic)
+        )
+
 
 @Engine.register_dtype(
     equivalents=[
